@@ -87,6 +87,87 @@ fn observe_elems(doc: &crate::xp::Doc) -> J {
     J::Array(out)
 }
 
+/// expanded names and in-scope namespaces of all elements in document order, without node identities (the scope is
+/// sorted): comparable between an edited document and a fresh parse of its serialization
+fn observe_plain(dom: &xml_dom::XmlDocument) -> J {
+    let fake = crate::xp::Doc { dom: dom.clone(), ids: HashMap::new(), mismatch: None, text: String::new() };
+    let mut v = observe_elems(&fake).as_array().cloned().unwrap_or_default();
+    for e in v.iter_mut() {
+        e["idx"] = json!(0);
+        let mut sc: Vec<String> = e["scope"].as_array().map(|a| a.iter().map(|x| x.to_string()).collect()).unwrap_or_default();
+        sc.sort();
+        e["scope"] = json!(sc);
+    }
+    J::Array(v)
+}
+
+fn edits(text: &str) -> J {
+    use xml_dom::{Document, ElementMut, NodeMut};
+    let mut out = vec![];
+    let plans: Vec<(&str, Box<dyn Fn(&xml_dom::XmlDocument) -> bool>)> = vec![
+        ("root.set_attribute(xmlns:p, u2)", Box::new(|d| d.document_element().map(|r| r.set_attribute("xmlns:p", "u2").is_ok()).unwrap_or(false))),
+        ("root.remove_attribute(xmlns:p)", Box::new(|d| d.document_element().map(|r| r.remove_attribute("xmlns:p").is_ok()).unwrap_or(false))),
+        ("root.set_attribute(xmlns, u2)", Box::new(|d| d.document_element().map(|r| r.set_attribute("xmlns", "u2").is_ok()).unwrap_or(false))),
+        ("root.remove_attribute(xmlns)", Box::new(|d| d.document_element().map(|r| r.remove_attribute("xmlns").is_ok()).unwrap_or(false))),
+        ("root.append_child(last element)", Box::new(|d| {
+            let r = match d.document_element() { Ok(r) => r, Err(_) => return false };
+            let mut els = vec![];
+            elements_in_order(&d.as_node(), &mut els);
+            match els.last() {
+                Some(last) if els.len() >= 3 => r.append_child(last.clone()).is_ok(),
+                _ => false,
+            }
+        })),
+    ];
+    for (name, f) in plans {
+        let t = text.to_string();
+        let r = guarded(move || -> Option<J> {
+            let doc = crate::xp::parse_merged(&t).ok()?;
+            // resolve every name once BEFORE the edit (an implementation may remember what it resolved)
+            let _ = observe_plain(&doc);
+            if !f(&doc) {
+                return None;
+            }
+            let live = observe_plain(&doc);
+            let ser = doc.to_string();
+            let re = match crate::xp::parse_merged(&ser) {
+                Ok(d2) => observe_plain(&d2),
+                Err(_) => return None, // serializability after edits is C15's business
+            };
+            Some(json!({"edit": name, "live": live, "re": re, "text": string_to_cps(&ser)}))
+        });
+        match r {
+            Ok(Some(j)) => out.push(j),
+            Ok(None) => {}
+            Err(p) => out.push(json!({"edit": name, "live": [{"panic": p}], "re": [], "text": []})),
+        }
+    }
+    J::Array(out)
+}
+
+fn rebind_queries(doc: &crate::xp::Doc, q: &J) -> J {
+    // add_ns(e, <another uri>) ; add_ns(e, <the uri of the binding>) on ONE context
+    let pre = cps_to_string(&q["binds"][0][0]);
+    let uri = cps_to_string(&q["binds"][0][1]);
+    let mut obs = vec![];
+    for e in q["exprs"].as_array().cloned().unwrap_or_default() {
+        let expr = cps_to_string(&e);
+        let (p2, u2, d2) = (pre.clone(), uri.clone(), doc.dom.clone());
+        let r = guarded(move || {
+            let mut ctx = xml_xpath::eval::model::Context::default();
+            ctx.add_ns(Some(p2.as_str()), "urn:somewhere-else");
+            ctx.add_ns(Some(p2.as_str()), u2.as_str());
+            xml_xpath::query(d2, &expr, &mut ctx).map_err(|e| e.to_string())
+        });
+        obs.push(match r {
+            Ok(Ok(v)) => crate::xp::value_json(doc, &v),
+            Ok(Err(e)) => json!({"t": "err", "msg": e}),
+            Err(p) => json!({"t": "panic", "msg": p}),
+        });
+    }
+    J::Array(obs)
+}
+
 fn run_queries(doc: &crate::xp::Doc, qs: &J) -> J {
     let mut out = vec![];
     for q in qs.as_array().cloned().unwrap_or_default() {
@@ -120,12 +201,16 @@ fn run(args: &[String]) -> i32 {
                 ev["bound"] = json!(doc.mismatch.is_none());
                 ev["elems"] = observe_elems(&doc);
                 ev["queries"] = run_queries(&doc, &c["queries"]);
+                ev["rebind"] = rebind_queries(&doc, &c["queries"][0]);
+                ev["edits"] = edits(&text);
             }
             Err(_) => {
                 ev["parsed"] = json!(false);
                 ev["bound"] = json!(false);
                 ev["elems"] = json!([]);
                 ev["queries"] = json!([]);
+                ev["rebind"] = json!([]);
+                ev["edits"] = json!([]);
             }
         }
         // the renamed twin: same structure, so the specification's tree still gives the node numbering
@@ -175,6 +260,20 @@ fn run(args: &[String]) -> i32 {
                     if !same(o1) || !same(o2) {
                         ok = false;
                     }
+                }
+            }
+        }
+        if ok {
+            for (k, exp) in c["queries"][0]["expect"].as_array().cloned().unwrap_or_default().iter().enumerate() {
+                let o = &ev["rebind"][k];
+                let is_ns = o["v"].as_array().map(|v| v.iter().any(|x| x.as_i64() == Some(-1))).unwrap_or(false);
+                if o["t"] != "nodes" || (!is_ns && o["v"] != exp["v"]) || (is_ns && o["v"].as_array().map(|v| v.len()) != exp["v"].as_array().map(|v| v.len())) {
+                    ok = false;
+                }
+            }
+            for ed in ev["edits"].as_array().cloned().unwrap_or_default() {
+                if ed["live"] != ed["re"] {
+                    ok = false;
                 }
             }
         }
